@@ -34,8 +34,6 @@ C05 = [
      "Cast(ConstantOfShape, to=STRING): the rule builds ir.tensor([int], dtype=STRING); the result cannot be serialised"),
     ("cast_cos_integer_wraparound", ["cast_constant_of_shape_rule"],
      "Cast(ConstantOfShape(value=int16{200}), to=INT8) raises OverflowError in ir.tensor (ONNX Cast wraps around)"),
-    ("flatten_twin_same_input", ["flatten_to_reshape_rule"],
-     "two Flatten nodes on the same value create two initializers named '<x>/shape'; the second Reshape then refers to an undefined '<x>/shape_1'"),
     ("flatten_zero_size_dim", ["flatten_to_reshape_rule"],
      "Flatten of a tensor with a zero-size dim becomes Reshape(x, [..0..]) without allowzero: 0 means 'copy the input dim'"),
     ("slice_split_before_opset18", ["slice_split_rule"], "slice_split_rule emits Split<num_outputs=2> in models whose opset is < 18 (attribute does not exist)"),
@@ -77,8 +75,6 @@ MANUAL = [
      "to_model_proto() of a script function whose attribute parameters have defaults leaves Constant<value_*: @attr> reference attributes in the main graph: "
      "onnx.checker rejects the model and runtimes read the attribute as 0 instead of the default"),
     ("C02", "attribute_parameter_with_default_in_model_proto", r"model_proto:checker:attr_ref_in_main_graph", "same defect as C01: reference attributes in the main graph of to_model_proto()"),
-    ("C07", "replacement_initializer_same_name_twice", r"(invalid|violation_not_executable|violation_values):abs_plus_zero_init.*",
-     "a replacement that creates an initializer with a fixed name, applied twice in one graph: the second application refers to '<name>_1' which is never registered"),
     ("C07", "pattern_node_more_outputs_than_host", r"raise:split_first:.*", "a pattern node declared with two outputs matched against a host Split with one output: the matcher accepts it (see the C06 finding) and applying the replacement raises ValueError"),
     ("C07", "multi_output_pattern_insertion_point", r"(invalid|violation_not_executable):neg_and_abs.*",
      "patterns with several output nodes: the replacement nodes are inserted at the position of one output node (documented TODO); a consumer placed earlier uses a value before its definition"),
